@@ -1,13 +1,15 @@
 (* Property C03: multi-threaded VCD loading equals single-threaded loading.
-   Pinned so far: the storage half - whatever the per-thread encoders recorded is reported, in chunk order,
-   with shifted time indices (appended_transparent), and the byte machine composes over concatenation
-   (run_bytes_app: a chunk's parse continues exactly where the previous bytes left the state).
-   NOT proved: that the chunk hand-over (skip to the first line feed, ignore values before the first time stamp,
-   stop at the first time stamp that starts beyond the chunk) makes the concatenated per-thread recordings equal
-   to the sequential recording; that part is decided by the correspondence run and the oracle (and has the known
-   findings D8/D15/D16). *)
+   Pinned: (1) the parser side of the hand-over (handover_segment, chunk_simulates): a parser thread started in the
+   middle of the body skips to the next line start and then emits - until its stop rule fires - exactly the events
+   the sequential parser emits from that line start on, provided the sequential parser is between tokens there;
+   no token is split, altered or invented at a seam.  (2) the storage side (appended_transparent): whatever the
+   per-thread encoders recorded is reported in chunk order with shifted time indices, de-duplicated across seams.
+   NOT proved: that the segments of consecutive threads tile the sequential event list without gap or overlap
+   (it needs the line discipline of time stamps, and is false for the inputs of the known findings D8/D15/D16),
+   and that the concatenated per-thread recordings equal the sequential recording; that part is decided by the
+   correspondence run and the oracle. *)
 From WV Require Import Model.Base Model.Bits Model.WaveMem Model.VcdBody Spec.TimeSpec Spec.StoreSpec
-  Proofs.TimeTableProofs Proofs.StoreProofs Proofs.EncoderProofs Proofs.BodyProofs.
+  Proofs.TimeTableProofs Proofs.StoreProofs Proofs.EncoderProofs Proofs.BodyProofs Proofs.HandoverProofs.
 Open Scope N_scope.
 
 Check appended_transparent :
@@ -29,6 +31,22 @@ Check appended_transparent :
     = outcome_map render_of
         (dedup (cat_shift (combine Rs (map (fun ops => N.of_nat (length (accepted (times_of ops)))) opss)) 0)).
 
+Check handover_segment :
+  forall debug stop_c (pre suf : list byte) (c : nat) s0 nolf,
+  (c < length pre)%nat -> skipn c pre = nolf ++ [10] -> ~ In 10 nolf ->
+  run_bytes debug (N.of_nat (length (pre ++ suf))) pre init_state = Running s0 ->
+  ps_state s0 = ParsingFirstToken -> ps_first s0 = [] ->
+  exists more,
+    fst (parse_body debug (pre ++ suf) (N.of_nat (length (pre ++ suf))))
+    = rev (ps_acc s0) ++ fst (parse_body debug (skipn c (pre ++ suf)) stop_c) ++ more.
+
+Check chunk_simulates :
+  forall debug stop_c stop_s d A bytes sc ss,
+  related d A sc ss -> no_underflow sc ->
+  ps_pos ss + N.of_nat (length bytes) <= stop_s + 1 ->
+  exists more, events_of debug (run_bytes debug stop_s bytes ss)
+               = rev A ++ events_of debug (run_bytes debug stop_c bytes sc) ++ more.
+
 Check run_bytes_app :
   forall debug stop_pos a b s,
   run_bytes debug stop_pos (a ++ b) s
@@ -37,5 +55,7 @@ Check run_bytes_app :
     | Running s' => run_bytes debug stop_pos b s'
     end.
 
+Print Assumptions handover_segment.
+Print Assumptions chunk_simulates.
 Print Assumptions appended_transparent.
 Print Assumptions run_bytes_app.
